@@ -9,9 +9,10 @@
 -/
 import Z80.Spec.MemIO
 import Z80.Gen.MemIO
+import Z80.Proofs.Assoc
 
 namespace Z80.Props.C15Gen
-open Z80 Z80.GoStore Z80.Gen.MemIO
+open Z80 Z80.GoStore Z80.Gen.MemIO Z80.Proofs.Assoc
 open Z80.Spec.MemIO (sliceGet sliceSet slicePut mapGet mapSet mapPut mapEqual assocGet?)
 
 -- ---------------------------------------------------------------------------
@@ -151,28 +152,6 @@ theorem MapMemory_Equal_eq (mm : GoMap) (d : Dyn) :
 -- ---------------------------------------------------------------------------
 -- range over a map: Clear and Clone, for EVERY visiting order
 
-/-- every key bound in l is visited (unless already seen) -/
-theorem mem_keys_live (seen : List U16) (l : Assoc) (kv : U16 × U8) (h : kv ∈ l) (hs : kv.1 ∉ seen) :
-    kv.1 ∈ (assocLiveAux seen l).map (·.1) := by
-  induction l generalizing seen with
-  | nil => cases h
-  | cons x rest ih =>
-    obtain ⟨k, v⟩ := x
-    unfold assocLiveAux
-    by_cases hk : seen.contains k
-    · simp only [hk, if_true]
-      rcases List.mem_cons.mp h with e | e
-      · subst e; simp at hk; exact absurd hk hs
-      · exact ih seen e hs
-    · simp only [hk]
-      rcases List.mem_cons.mp h with e | e
-      · subst e; simp
-      · by_cases hkk : kv.1 = k
-        · simp [hkk]
-        · simp only [Bool.false_eq_true, if_false, List.map_cons, List.mem_cons]
-          right
-          exact ih (k :: seen) e (by simp [hkk, hs])
-
 /-- deleting, one after the other, the keys of ANY list that covers l's keys leaves nothing -/
 theorem delete_all (f : GoMap → U16 × U8 → Option GoMap) (hf : ∀ mm kv, f mm kv = some (goDelete mm kv.1))
     (ks : List (U16 × U8)) (l : Assoc) (h : ∀ kv ∈ l, kv.1 ∈ ks.map (·.1)) :
@@ -216,100 +195,6 @@ theorem copy_fold (f : GoMap → U16 × U8 → Option GoMap) (hf : ∀ l kv, f (
     show List.foldlM f (some (x :: acc)) rest = _
     rw [ih]
     simp
-
-/-- in a list whose keys are pairwise distinct, lookup is membership -/
-theorem find_iff_mem (es : Assoc) (hnd : (es.map (·.1)).Nodup) (k : U16) (v : U8) :
-    assocFind es k = some v ↔ (k, v) ∈ es := by
-  induction es with
-  | nil => simp [assocFind]
-  | cons x rest ih =>
-    obtain ⟨k', v'⟩ := x
-    simp only [List.map_cons, List.nodup_cons] at hnd
-    unfold assocFind at ih ⊢
-    by_cases hk : k' = k
-    · subst hk
-      simp only [List.find?_cons, BEq.rfl, Option.map_some, Option.some.injEq, List.mem_cons, Prod.mk.injEq, true_and]
-      constructor
-      · intro e; exact Or.inl e.symm
-      · rintro (e | e)
-        · exact e.symm
-        · exact absurd (List.mem_map_of_mem (f := (·.1)) e) hnd.1
-    · have : (k' == k) = false := by simp [hk]
-      simp only [List.find?_cons, this, List.mem_cons, Prod.mk.injEq]
-      rw [ih hnd.2]
-      constructor
-      · intro e; exact Or.inr e
-      · rintro (⟨e, _⟩ | e)
-        · exact absurd e.symm hk
-        · exact e
-
-/-- lookups in a list with distinct keys depend only on its members — not on their order -/
-theorem find_order_independent (es es' : Assoc) (hnd : (es.map (·.1)).Nodup) (hnd' : (es'.map (·.1)).Nodup)
-    (hmem : ∀ kv, kv ∈ es' ↔ kv ∈ es) (k : U16) : assocFind es' k = assocFind es k := by
-  cases h : assocFind es k with
-  | some v =>
-    exact (find_iff_mem es' hnd' k v).mpr ((hmem _).mpr ((find_iff_mem es hnd k v).mp h))
-  | none =>
-    cases h' : assocFind es' k with
-    | none => rfl
-    | some v =>
-      have := (find_iff_mem es hnd k v).mpr ((hmem _).mp ((find_iff_mem es' hnd' k v).mp h'))
-      rw [h] at this; cases this
-
-theorem live_keys_not_seen (seen : List U16) (l : Assoc) : ∀ kv ∈ assocLiveAux seen l, kv.1 ∉ seen := by
-  induction l generalizing seen with
-  | nil => intro kv h; cases h
-  | cons x rest ih =>
-    obtain ⟨k, v⟩ := x
-    intro kv h
-    unfold assocLiveAux at h
-    by_cases hk : seen.contains k
-    · simp only [hk, if_true] at h; exact ih seen kv h
-    · simp only [hk, Bool.false_eq_true, if_false, List.mem_cons] at h
-      rcases h with e | e
-      · subst e; simpa using hk
-      · have := ih (k :: seen) kv e
-        simp only [List.mem_cons, not_or] at this
-        exact this.2
-
-theorem live_nodup (seen : List U16) (l : Assoc) : ((assocLiveAux seen l).map (·.1)).Nodup := by
-  induction l generalizing seen with
-  | nil => simp [assocLiveAux]
-  | cons x rest ih =>
-    obtain ⟨k, v⟩ := x
-    unfold assocLiveAux
-    by_cases hk : seen.contains k
-    · simp only [hk, if_true]; exact ih seen
-    · simp only [hk, Bool.false_eq_true, if_false, List.map_cons, List.nodup_cons]
-      refine ⟨?_, ih (k :: seen)⟩
-      intro hmem
-      obtain ⟨kv, hkv, e⟩ := List.mem_map.mp hmem
-      have := live_keys_not_seen (k :: seen) rest kv hkv
-      simp only [List.mem_cons, not_or] at this
-      exact this.1 e
-
-/-- the visited entries answer every lookup (for keys not yet seen) as the map does -/
-theorem find_live (seen : List U16) (l : Assoc) (k : U16) (hk : k ∉ seen) :
-    assocFind (assocLiveAux seen l) k = assocFind l k := by
-  induction l generalizing seen with
-  | nil => rfl
-  | cons x rest ih =>
-    obtain ⟨k', v'⟩ := x
-    unfold assocLiveAux
-    by_cases hs : seen.contains k'
-    · have hne : k' ≠ k := by intro e; subst e; simp at hs; exact hk hs
-      have : (k' == k) = false := by simp [hne]
-      simp only [hs, if_true]
-      rw [ih seen hk]
-      simp [assocFind, List.find?_cons, this]
-    · simp only [hs, Bool.false_eq_true, if_false]
-      by_cases hkk : k' = k
-      · subst hkk; simp [assocFind, List.find?_cons]
-      · have : (k' == k) = false := by simp [hkk]
-        have hk2 : k ∉ k' :: seen := by simp [hk, Ne.symm hkk]
-        have := ih (k' :: seen) hk2
-        simp only [assocFind, List.find?_cons, *] at this ⊢
-        exact this
 
 /-- Clone, for EVERY visiting order of the entries: the result is a second, initialised map that answers every lookup as
     the original does (the receiver itself is untouched; the result is a different object by construction: `cl := MapMemory{}`) -/
